@@ -184,6 +184,7 @@ class MapperEntry:
     cached: bool = True
     transform: bool = False
     family: str = "transform"
+    wraps: str | None = None             # for functions: the mapper class they run
 
 
 def _doc_has(obj, text: str, module=None) -> bool:
@@ -246,7 +247,7 @@ def mapper_entries() -> list[MapperEntry]:
         def run(node, module=module, clsname=clsname, fn=fn):
             with patched_class(module, clsname):
                 return fn(node)
-        out.append(MapperEntry("fn:" + name, run, skips, **kw))
+        out.append(MapperEntry("fn:" + name, run, skips, wraps=clsname, **kw))
 
     # reasons a mapper is documented not to enter function bodies; each quote is
     # checked against today's source (else the exclusion is dropped)
@@ -619,23 +620,96 @@ def users_disagreements(t: Tables) -> list[tuple[str, str, str, str]]:
 
 
 # --------------------------------------------------------------------------
+# signatures
+# --------------------------------------------------------------------------
+
+INDEX_CLASSES = ("BasicIndex", "AdvancedIndexInContiguousAxes", "AdvancedIndexInNoncontiguousAxes")
+
+
+def index_family(cls: str) -> str:
+    return "IndexBase" if cls in INDEX_CLASSES else cls
+
+
+def mapper_alias(t: Tables) -> dict[str, str]:
+    """mapper-based function -> mapper class it runs (signatures name the class)"""
+    out = {}
+    for e in t.entries:
+        if e.name.startswith("fn:") and e.wraps:
+            out[e.name] = e.wraps
+    return out
+
+
+def aggregated_mappers(t: Tables) -> list[str]:
+    """mapper classes observed through their `rec` calls (all but the two observed through
+    their output): an edge class missed by ALL of them is one finding, not thirty"""
+    return sorted({mapper_alias(t).get(e.name, e.name) for e in t.entries
+                   if e.family in ("transform", "analysis")})
+
+
+def miss_signatures(t: Tables) -> dict[str, list[tuple[str, str, str, str]]]:
+    """signature -> failing rows.  An (index-family class, edge class) missed by every
+    aggregated mapper gets the single signature mapper-misses:ALL:<Class>:<edge class>."""
+    alias = mapper_alias(t)
+    agg = set(aggregated_mappers(t))
+    miss = missing_rows(t)
+    by_edge: dict[tuple[str, str], set[str]] = {}
+    for m, k, lb, ec in miss:
+        by_edge.setdefault((index_family(t.cls(k)), ec), set()).add(alias.get(m, m))
+    sigs: dict[str, list] = {}
+    for m, k, lb, ec in miss:
+        mm = alias.get(m, m)
+        fam = index_family(t.cls(k))
+        if mm in agg and agg <= by_edge[(fam, ec)]:
+            sig = f"mapper-misses:ALL:{fam}:{ec}"
+        else:
+            sig = f"mapper-misses:{mm}:{t.cls(k)}:{ec}"
+        sigs.setdefault(sig, []).append((m, k, lb, ec))
+    return sigs
+
+
+def users_signatures(t: Tables) -> dict[str, list[tuple[str, str, str, str]]]:
+    sigs: dict[str, list] = {}
+    for k, lb, ec, pat in users_disagreements(t):
+        if ec == "raises":
+            impl, exc = pat.split(":")
+            sig = f"users-raises:{impl}:{t.cls(k)}"
+        else:
+            sig = f"users-disagree:{t.cls(k)}:{ec}:{pat}"
+        sigs.setdefault(sig, []).append((k, lb, ec, pat))
+    return sigs
+
+
+def _pattern_nums(pat: str) -> list[int] | None:
+    out = []
+    for i in range(0, len(pat), 2):
+        mark = pat[i + 1:i + 2]
+        if mark not in "-+!" or not mark:
+            return None
+        out.append("-+!".index(mark))
+    return out
+
+
+# --------------------------------------------------------------------------
 # known findings -> rows
 # --------------------------------------------------------------------------
 
-def known_rows() -> tuple[list[tuple[str, str, str]], list[tuple[str, str, str]]]:
-    """rows excluded from the table obligations: ONLY from the committed
-    known_findings.json.  C13: `mapper-misses:<Mapper>:<Kind>:<class>`;
-    C20: `users-disagree:<Kind>:<class>:<pattern>`."""
+def known_rows():
+    """rows excluded from the table obligations: ONLY from the committed known_findings.json.
+    C13 `mapper-misses:<Mapper|ALL>:<Class>:<edge class>`;
+    C20 `users-disagree:<Class>:<edge class>:<pattern>` and `users-raises:<Impl>:<Class>`."""
     k = common.load_known()
-    c13, c20 = [], []
+    c13, c20, c20r = [], [], []
     for e in k.get("known", []):
-        sig = e.get("signature", "")
-        parts = sig.split(":")
-        if e.get("property") == "C13" and parts[0] == "mapper-misses" and len(parts) >= 4:
-            c13.append((parts[1], parts[2], ":".join(parts[3:])))
-        if e.get("property") == "C20" and parts[0] == "users-disagree" and len(parts) >= 4:
-            c20.append((parts[1], parts[2], ":".join(parts[3:])))
-    return c13, c20
+        parts = e.get("signature", "").split(":")
+        if e.get("property") == "C13" and parts[0] == "mapper-misses" and len(parts) == 4:
+            c13.append((parts[1], parts[2], parts[3]))
+        if e.get("property") == "C20" and parts[0] == "users-disagree" and len(parts) == 4:
+            nums = _pattern_nums(parts[3])
+            if nums is not None:
+                c20.append((parts[1], parts[2], nums))
+        if e.get("property") == "C20" and parts[0] == "users-raises" and len(parts) == 3:
+            c20r.append((parts[1], parts[2]))
+    return c13, c20, c20r
 
 
 # --------------------------------------------------------------------------
@@ -650,44 +724,63 @@ def _lst(xs, f=_s) -> str:
     return "[" + ", ".join(f(x) for x in xs) + "]"
 
 
+def _t3(r) -> str:
+    return f"({_s(r[0])}, {_s(r[1])}, {_s(r[2])})"
+
+
+def _pairs(v) -> str:
+    return _lst(v, lambda p: f"({_s(p[0])}, {_s(p[1])})")
+
+
 def render(t: Tables) -> str:
-    c13, c20 = known_rows()
+    c13, c20, c20r = known_rows()
     L = []
     L.append("/- GENERATED by harness/extract/children.py from the live pytato sources — do not edit.")
     L.append("   Regenerated on every run of ./check C13 / C20 before `lake build`. -/")
+    L.append("import PtModel.Tables")
     L.append("namespace PtGen")
+    L.append("open Pt.Tables")
     L.append("")
     L.append("/-- probe kind ↦ every array-valued edge the node stores: (label, class); from the reflective")
     L.append("    walk over dataclass fields, independent of all mappers -/")
     L.append("def arrayEdges : List (String × List (String × String)) := [")
-    L.append(",\n".join(f"  ({_s(k)}, {_lst(v, lambda p: f'({_s(p[0])}, {_s(p[1])})')})"
-                        for k, v in t.array_edges.items()))
+    L.append(",\n".join(f"  ({_s(k)}, {_pairs(v)})" for k, v in t.array_edges.items()))
     L.append("]")
     L.append("")
     L.append("/-- probe kind ↦ array-valued components of a *derived* shape (not stored) -/")
     L.append("def derivedEdges : List (String × List (String × String)) := [")
-    L.append(",\n".join(f"  ({_s(k)}, {_lst(v, lambda p: f'({_s(p[0])}, {_s(p[1])})')})"
-                        for k, v in t.derived_edges.items()))
+    L.append(",\n".join(f"  ({_s(k)}, {_pairs(v)})" for k, v in t.derived_edges.items()))
     L.append("]")
+    L.append("")
+    L.append("def kindClass : List (String × String) := " + _pairs(list(t.kind_class.items())))
     L.append("")
     L.append("/-- (mapper, probe kind, labels of the children the mapper's method recursed into) -/")
     L.append("def mapperKinds : List (String × String × List String) := [")
     L.append(",\n".join(f"  ({_s(m)}, {_s(k)}, {_lst(ls)})" for m, k, ls in t.rows))
     L.append("]")
     L.append("")
-    L.append("/-- (mapper, probe kind, exception): the mapper refuses the kind loudly -/")
+    L.append("/-- (mapper, probe kind, exception): the mapper refuses the kind loudly (data, no obligation) -/")
     L.append("def unsupported : List (String × String × String) := [")
-    L.append(",\n".join(f"  ({_s(m)}, {_s(k)}, {_s(x)})" for m, k, x in t.unsupported))
+    L.append(",\n".join("  " + _t3(r) for r in t.unsupported))
     L.append("]")
+    L.append("")
+    L.append("def mapperAlias : List (String × String) := " + _pairs(sorted(mapper_alias(t).items())))
     L.append("")
     L.append("/-- mappers whose documentation puts function bodies out of scope (quote found in today's source) -/")
     L.append("def skipsFunctionBodies : List String := " + _lst(sorted(t.skips)))
     L.append("")
-    L.append("/-- C13 known findings (mapper, kind, edge class) — rendered from known_findings.json only -/")
-    L.append("def knownMisses : List (String × String × String) := "
-             + _lst(c13, lambda r: f"({_s(r[0])}, {_s(r[1])}, {_s(r[2])})"))
+    L.append("/-- (mapper, node class, edge class) excused by documented semantics (quote found in today's source) -/")
+    L.append("def documentedExclusions : List (String × String × String) := "
+             + _lst([r[:3] for r in t.doc_exclusions], _t3))
     L.append("")
-    L.append("def usersImpls : List String := " + _lst(USERS_IMPLS))
+    L.append("/-- C13 known findings — rendered from known_findings.json only -/")
+    L.append("def knownMisses : List (String × String × String) := " + _lst(c13, _t3))
+    L.append("")
+    L.append("def childrenTables : ChildrenTables :=")
+    L.append("  { arrayEdges := arrayEdges, kindClass := kindClass, mapperKinds := mapperKinds,")
+    L.append("    mapperAlias := mapperAlias, skipsFunctionBodies := skipsFunctionBodies,")
+    L.append("    documentedExclusions := documentedExclusions, knownMisses := knownMisses,")
+    L.append("    aggregated := " + _lst(aggregated_mappers(t)) + " }")
     L.append("")
     L.append("/-- C20: (implementation, probe kind, edges of the node it reports as user/predecessor pairs) -/")
     L.append("def usersEdges : List (String × String × List String) := [")
@@ -695,38 +788,65 @@ def render(t: Tables) -> str:
     L.append("]")
     L.append("")
     L.append("def usersUnsupported : List (String × String × String) := [")
-    L.append(",\n".join(f"  ({_s(m)}, {_s(k)}, {_s(x)})" for m, k, x in t.users_unsupported))
+    L.append(",\n".join("  " + _t3(r) for r in t.users_unsupported))
     L.append("]")
     L.append("")
-    L.append("/-- probe kinds of the users tables -/")
-    L.append("def usersKinds : List String := " + _lst(list(t.kinds)))
-    L.append("")
-    L.append("/-- (kind, label, class) of every edge some implementation reports -/")
     allu = []
     for k in t.kinds:
-        seen = []
+        seen: list[str] = []
         for impl, kk, ls in t.users:
             if kk == k:
                 seen += [x for x in ls if x not in seen]
         allu += [(k, lb, probes.edge_class(lb)) for lb in sorted(seen)]
+    L.append("/-- (probe kind, label, class) of every edge some implementation reports -/")
     L.append("def usersLabels : List (String × String × String) := [")
-    L.append(",\n".join(f"  ({_s(a)}, {_s(b)}, {_s(c)})" for a, b, c in allu))
+    L.append(",\n".join("  " + _t3(r) for r in allu))
     L.append("]")
     L.append("")
-    L.append("/-- C20 known findings (kind, edge class, pattern) — rendered from known_findings.json only -/")
-    L.append("def knownUsersDisagree : List (String × String × String) := "
-             + _lst(c20, lambda r: f"({_s(r[0])}, {_s(r[1])}, {_s(r[2])})"))
+    L.append("/-- C20 known findings — rendered from known_findings.json only -/")
+    L.append("def knownUsersDisagree : List (String × String × List Nat) := "
+             + _lst(c20, lambda r: f"({_s(r[0])}, {_s(r[1])}, [{', '.join(map(str, r[2]))}])"))
+    L.append("def knownUsersRaises : List (String × String) := " + _pairs(c20r))
+    L.append("")
+    L.append("def usersTables : UsersTables :=")
+    L.append("  { impls := " + _lst(USERS_IMPLS) + ", usersEdges := usersEdges,")
+    L.append("    usersUnsupported := usersUnsupported, usersLabels := usersLabels, kindClass := kindClass,")
+    L.append("    known := knownUsersDisagree, knownRaises := knownUsersRaises }")
     L.append("")
     L.append("end PtGen")
     return "\n".join(L) + "\n"
 
 
+def render_witness(t: Tables) -> str:
+    """negations of the FULL statements, emitted only for what fails TODAY (so a repaired
+    tree is never blocked), kernel-checked next to the `_partial` obligations"""
+    L = ["/- GENERATED by harness/extract/children.py — do not edit. -/",
+         "import PtGen.Children", "namespace PtGen", "open Pt.Tables", ""]
+    L.append("/-- full-strength C13 table statement: no known-finding exclusions -/")
+    L.append("def ChildrenFull : Prop := childrenTables.complete false = true")
+    L.append("/-- full-strength C20 table statement: no known-finding exclusions -/")
+    L.append("def UsersFull : Prop := usersTables.agreeAll false = true")
+    L.append("")
+    if missing_rows(t):
+        L.append("/-- today's tables exhibit missed children (witness rows are replayed on the real code) -/")
+        L.append("theorem childrenFull_fails_today : ¬ ChildrenFull := by decide +kernel")
+    if users_disagreements(t):
+        L.append("/-- today's tables exhibit disagreeing users/predecessor implementations -/")
+        L.append("theorem usersFull_fails_today : ¬ UsersFull := by decide +kernel")
+    L.append("")
+    L.append("end PtGen")
+    return "\n".join(L) + "\n"
+
+
+OUT_WITNESS = common.LEAN_DIR / "PtGen" / "ChildrenWitness.lean"
+
+
 def regenerate(with_loopy: bool = True) -> Tables:
     t = extract(with_loopy)
-    text = render(t)
     OUT.parent.mkdir(exist_ok=True)
-    if not OUT.exists() or OUT.read_text() != text:
-        OUT.write_text(text)
+    for path, text in ((OUT, render(t)), (OUT_WITNESS, render_witness(t))):
+        if not path.exists() or path.read_text() != text:
+            path.write_text(text)
     return t
 
 
